@@ -18,7 +18,12 @@ KsProj(n) ==
      \* would a recovery from the current durable state be affected by finding D1D2
      ctaint  |-> id \in Rec.tnt \cup MayReplayOverIngested(journals, Rec.known),
      \* every value some source holds for the key (what a structure-dependent read can return)
-     cand    |-> [k \in Keys |-> {e.v : e \in {x \in UnionSeq(Sources(lsm[id])) : x.k = k}}],
+     cand    |-> [k \in Keys |-> {e.v : e \in {x \in UnionSeq(Sources(lsm[id])) : x.k = k}}
+                                  \* ... or a journal record of the keyspace holds (which of them a recovery
+                                  \* replays depends on the seqnos left in the tables after compactions)
+                                  \cup UNION {UNION {{r.items[z].v : z \in {w \in 1..Len(r.items) : r.items[w].id = id /\ r.items[w].k = k}}
+                                                      : r \in {journals[x].recs[y] : y \in 1..Len(journals[x].recs)}}
+                                               : x \in 1..Len(journals)}],
      sealed  |-> Len(lsm[id].sl),
      filter  |-> filt[id]]
 
@@ -38,6 +43,7 @@ Projection ==
      flushq  |-> Len(flushq),
      openviews |-> Cardinality(views),
      d15 |-> FindingD15,
+     kf |-> kf,
      seqnoAboveJournal |-> SeqnoAboveJournal,
      seqnoAboveEntries |-> SeqnoAboveEntries]
 
